@@ -148,7 +148,7 @@ fn k_tex_bgra_2x1_concrete_header() {
 fn ntx_file(attr: u32, format: u32, w: u16, h: u16, d: u16, payload: &[u8]) -> Vec<u8> { let mut v = tex_header(attr, format, w, h, d).to_vec(); v.extend_from_slice(payload); v }
 fn ntx_payload(n: usize, seed: u32) -> Vec<u8> { let mut x = seed.wrapping_mul(2654435761).wrapping_add(7); (0..n).map(|_| { x = x.wrapping_mul(1664525).wrapping_add(1013904223); (x >> 24) as u8 }).collect() }
 
-//@unit props=C13 label=B tier=quick native=1 fn=tex::Texture::{from_existing,decode} bound="by execution: B8G8R8A8, BC1, BC3 and BC5 textures of 15 sizes (1x1 .. 37x19, non-multiples of 4 included), depth 1, 2 and 4, attribute words {0, 0x1000000, 0x2800000, 0xFFFFFFFF restricted to defined bits}, pseudo-random payloads"
+//@unit props=C13 label=B tier=quick native=1 fn=tex::Texture::{from_existing,decode} bound="by execution: four tall volumes whose height x depth is 65280, 65536, 66048 and 65536 rows (pixels sampled every 61st row and around row 65536); B8G8R8A8, BC1, BC3 and BC5 textures of 15 sizes (1x1 .. 37x19, non-multiples of 4 included), depth 1, 2 and 4, attribute words {0, 0x1000000, 0x2800000, 0xFFFFFFFF restricted to defined bits}, pseudo-random payloads"
 //@desc the decoded image has width x height x depth RGBA pixels; B8G8R8A8 pixels are the stored B,G,R,A bytes reordered; a block-compressed pixel (x, y) is the reordered word that the block decoder assigns to texel (x mod 4, y mod 4) of block (y/4)*ceil(w/4) + x/4; the texture is three-dimensional exactly when attribute bit 0x1000000 is set
 #[test]
 fn native_tex_decode() {
@@ -183,6 +183,28 @@ fn native_tex_decode() {
                 cases += 4;
             }
         }
+    }
+    // tall volumes: height x depth reaches and passes 65536 rows (every block distinct per row group), all four formats
+    for (w, h, d) in [(4u16, 256u16, 255u16), (4, 256, 256), (4, 256, 258), (8, 1024, 64)] {
+        let (wu, hu) = (w as usize, h as usize * d as usize);
+        let pay = ntx_payload(wu * hu * 4, 77);
+        let t = Texture::from_existing(&ntx_file(0x0100_0000, 0x1450, w, h, d, &pay)).expect("B8G8R8A8 volume parses");
+        assert_eq!((t.width, t.height, t.depth, t.rgba.len()), (w as u32, h as u32, d as u32, wu * hu * 4), "volume dimensions {w}x{h}x{d}");
+        for i in (0..wu * hu).step_by(97).chain([wu * hu - 1]) { assert_eq!(&t.rgba[4 * i..4 * i + 4], &[pay[4 * i + 2], pay[4 * i + 1], pay[4 * i], pay[4 * i + 3]], "BGRA -> RGBA at pixel {i} of {w}x{h}x{d}"); }
+        let (nbx, nby) = ((wu + 3) / 4, (hu + 3) / 4);
+        for (fmt, bs, blk) in [(0x3420u32, 8usize, crate::bcn::decode_bc1_block as fn(&[u8], &mut [u32])), (0x3431, 16, crate::bcn::decode_bc3_block), (0x6230, 16, crate::bcn::decode_bc5_block)] {
+            let pay = ntx_payload(nbx * nby * bs, 78 + bs as u32);
+            let t = Texture::from_existing(&ntx_file(0x0100_0000, fmt, w, h, d, &pay)).expect("block-compressed volume parses");
+            assert_eq!((t.width, t.height, t.depth, t.rgba.len()), (w as u32, h as u32, d as u32, wu * hu * 4), "volume dimensions {w}x{h}x{d} (format {fmt:#x})");
+            for y in (0..hu).step_by(61).chain([hu - 1, hu - 4, 65535.min(hu - 1), 65536.min(hu - 1)]) { for x in 0..wu {
+                let k = (y / 4) * nbx + x / 4;
+                let mut b = [0xFF00_0000u32; 16];
+                blk(&pay[k * bs..k * bs + bs], &mut b);
+                let v = b[(y % 4) * 4 + x % 4].to_le_bytes();
+                assert_eq!(&t.rgba[4 * (y * wu + x)..4 * (y * wu + x) + 4], &[v[2], v[1], v[0], v[3]], "format {fmt:#x}, {w}x{h}x{d}: pixel ({x},{y})");
+            } }
+        }
+        cases += 4;
     }
     println!("NATIVE native_tex_decode cases={cases}");
 }
